@@ -1,12 +1,14 @@
 # Translator tie for control flow (tools/rs2lean.py): per property, a module proving that the Lean
 # definitions GENERATED from the current Rust function bodies equal the hand-written model.
 _GEN_TIE = {
-    "C18": ("BV.Props.C18Gen", "Log2FloorNonZero, GetInsertLengthCode, GetCopyLengthCode, combine_length_codes, PrefixEncodeCopyDistance, BrotliEncodeMlen",
-            "log2_floor_non_zero_generated, get_insert_length_code_generated, get_copy_length_code_generated (every usize), combine_length_codes_generated (whole 24x24x2 domain), prefix_encode_copy_distance_generated (every code < 2^62, NPOSTFIX <= 3, NDIRECT <= 120), encode_mlen_generated (1..2^24)"),
+    "C18": ("BV.Props.C18Gen", "Log2FloorNonZero, GetInsertLengthCode, GetCopyLengthCode, combine_length_codes, PrefixEncodeCopyDistance, BrotliEncodeMlen, Command::copy_len, Command::distance_context, Command::restore_distance_code",
+            "log2_floor_non_zero_generated, get_insert_length_code_generated, get_copy_length_code_generated (every usize), combine_length_codes_generated (whole 24x24x2 domain), prefix_encode_copy_distance_generated (every code < 2^62, NPOSTFIX <= 3, NDIRECT <= 120), restore_distance_code_generated (every stored prefix with nbits <= 31, every extra), copy_len_generated, encode_mlen_generated (1..2^24)"),
     "C08": ("BV.Props.C08Gen", "BrotliEncoderMaxCompressedSize, BrotliEncoderMaxCompressedSizeMulti",
             "max_compressed_size_generated, max_compressed_size_multi_generated (every usize)"),
     "C02": ("BV.Props.C02Gen", "get_range", "get_range_generated_wrap (release semantics, num_threads != 0), get_range_generated (debug semantics: whenever the checked model returns)"),
     "C06": ("BV.Props.C02Gen", "get_range", "get_range_generated_wrap, get_range_generated"),
+    "C01": ("BV.Props.C01Gen", "WrapPosition",
+            "stated DIRECTLY over the generated definition: wrap_position_closed_form, wrap_position_low_bits (low 30 bits survive), wrap_position_identity (< 3 GiB), wrap_position_range (fits u32; never below 1 GiB again; below 3 GiB once wrapped), wrap_position_distance (distances modulo 2 GiB) — every u64 position"),
     "C15": ("BV.Props.C15Gen", "EncodeWindowBits", "encode_window_bits_generated (every lgwin < 64, both header forms), encode_window_bits_ignores_outs"),
 }
 for _pid, (_mod, _fns, _ths) in _GEN_TIE.items():
